@@ -21,6 +21,8 @@ fn id_word(id: &str) -> Option<String> {
         "match" => Some(hex(UID.to_string().as_bytes())),
         "mismatch" => Some(hex((UID + 1).to_string().as_bytes())),
         "nonnum" => Some(hex(b"root")),
+        // numerically the peer's uid, spelled with a leading zero
+        "ambig" => Some(hex(format!("0{UID}").as_bytes())),
         "badhex" => Some("3z".to_string()),
         other => panic!("id class {other}"),
     }
